@@ -85,7 +85,7 @@ def has_port(e):
 class C01(Prop):
     ID = 'C01'
     EXTRA_PROPS = ('Integration',)   # cross-model corollaries (C01×C02, C07×C03, C04×C03, C16×C02) audited with this check
-    N_QUICK = 8000
+    N_QUICK = 6500
     N_THOROUGH = 60000
     CASE_TIMEOUT = 120
     RULE = ('random hubs of 2..6 register-like ports (number/boolean, per-call read/write latencies from '
